@@ -53,8 +53,11 @@ Definition hevc_record_array (p : bytes) (index typ : N) (need : N) : res (bytes
         let* d := slice_chk p (index + 5) (index + 5 + l) in
         Ok (d, l).
 
-(* parseVpsSpsPpsFromRecord *)
-Definition hevc_parse_record (p : bytes) : res (bytes * bytes * bytes) :=
+(* parseVpsSpsPpsFromRecord.  fixed = true: the code after the two crash fixes
+   (length guard in front of payload[27]; an empty nal in the Annex-B fallback
+   is skipped); fixed = false: the pinned tree, kept for the crash properties *)
+Definition hevc_parse_record_f (fixed : bool) (p : bytes) : res (bytes * bytes * bytes) :=
+  if fixed && (lenN p <? 33) then Err err_hevc else
   let* na := idx p 27 in
   if negb ((na =? 3) || (na =? 4)) then Err err_hevc
   else
@@ -76,7 +79,7 @@ Fixpoint index_sc4 (l : bytes) (i : N) : option N :=
   end.
 
 (* parseVpsSpsPpsAnnexbFromRecord.  fuel = len(payload): i grows by >= 4 per turn *)
-Fixpoint hevc_annexb_loop (fuel : nat) (p : bytes) (i : N) (acc : bytes * bytes * bytes)
+Fixpoint hevc_annexb_loop (fixed : bool) (fuel : nat) (p : bytes) (i : N) (acc : bytes * bytes * bytes)
   : res (bytes * bytes * bytes) :=
   if negb (i + 4 <? lenN p) then Ok acc
   else match fuel with
@@ -92,7 +95,7 @@ Fixpoint hevc_annexb_loop (fuel : nat) (p : bytes) (i : N) (acc : bytes * bytes 
                end in
       let nal := firstn (N.to_nat (e - 4)) (skipn (N.to_nat (i + 4)) p) in
       match nal with
-      | [] => Panic site_hevc_annexb_nal0
+      | [] => if fixed then hevc_annexb_loop fixed f p (i + e) acc else Panic site_hevc_annexb_nal0
       | b :: _ =>
         let typ := N.land b 126 / 2 in
         let '(v, s, q) := acc in
@@ -100,33 +103,42 @@ Fixpoint hevc_annexb_loop (fuel : nat) (p : bytes) (i : N) (acc : bytes * bytes 
                     else if typ =? 33 then (v, s ++ nal, q)
                     else if typ =? 34 then (v, s, q ++ nal)
                     else acc in
-        hevc_annexb_loop f p (i + e) acc'
+        hevc_annexb_loop fixed f p (i + e) acc'
       end
     end
   end.
 
-Definition hevc_parse_annexb_record (p : bytes) : res (bytes * bytes * bytes) :=
-  let* (v, s, q) := hevc_annexb_loop (length p) p 0 ([], [], []) in
+Definition hevc_parse_annexb_record_f (fixed : bool) (p : bytes) : res (bytes * bytes * bytes) :=
+  let* (v, s, q) := hevc_annexb_loop fixed (length p) p 0 ([], [], []) in
   match v, s, q with
   | _ :: _, _ :: _, _ :: _ => Ok (v, s, q)
   | _, _, _ => Err err_hevc
   end.
 
 (* ParseVpsSpsPpsFromSeqHeader(WithoutMalloc), StrategyTryAnnexb... = true *)
-Definition hevc_parse_seq_header (p : bytes) : res (bytes * bytes * bytes) :=
+Definition hevc_parse_seq_header_f (fixed : bool) (p : bytes) : res (bytes * bytes * bytes) :=
   if lenN p <? 5 then Err err_short
   else if negb ((nth 0 p 0 =? 28) && (nth 1 p 0 =? 0) && (nth 2 p 0 =? 0)
                 && (nth 3 p 0 =? 0) && (nth 4 p 0 =? 0)) then Err err_hevc
   else if lenN p <? 33 then Err err_hevc
-  else match hevc_parse_record p with
-       | Err _ => hevc_parse_annexb_record p
+  else match hevc_parse_record_f fixed p with
+       | Err _ => hevc_parse_annexb_record_f fixed p
        | r => r
        end.
 
 (* ParseVpsSpsPpsFromEnhancedSeqHeader *)
-Definition hevc_parse_enhanced_seq_header (p : bytes) : res (bytes * bytes * bytes) :=
+Definition hevc_parse_enhanced_seq_header_f (fixed : bool) (p : bytes) : res (bytes * bytes * bytes) :=
   let* b := idx p 0 in
-  if N.land b 15 =? 0 then hevc_parse_record p else Err err_hevc.
+  if N.land b 15 =? 0 then hevc_parse_record_f fixed p else Err err_hevc.
+
+(* the current code *)
+Definition hevc_parse_record := hevc_parse_record_f true.
+Definition hevc_parse_annexb_record := hevc_parse_annexb_record_f true.
+Definition hevc_parse_seq_header := hevc_parse_seq_header_f true.
+Definition hevc_parse_enhanced_seq_header := hevc_parse_enhanced_seq_header_f true.
+(* the pinned tree *)
+Definition hevc_parse_seq_header_pinned := hevc_parse_seq_header_f false.
+Definition hevc_parse_enhanced_seq_header_pinned := hevc_parse_enhanced_seq_header_f false.
 
 (* VpsSpsPpsSeqHeader2Annexb *)
 Definition hevc_seq_header2annexb (p : bytes) : res bytes :=
